@@ -548,6 +548,35 @@ def entryClass (_ : Entry) (instanceMro : List KName) : List KName := instanceMr
 def entryCheck (e : Entry) (instanceMro : List KName) (cols lines : Nat) (s : List Char) : Except Err Result :=
   checkFormatSpecK (entryClass e instanceMro) cols lines s
 
+/-! ## the iterator and the widget entries with their own state
+
+`ImageIterator.__init__` fixes `(fmt, alpha, style_args)` once from `image._check_format_spec(format_spec)`;
+`_animate` then renders every frame of the first loop with them and, when caching, in a later loop re-renders
+exactly the frames whose image size changed since they were cached — with the same triple.
+`UrwidImage.__init__` validates first and only then (for a kitty image) takes a z-index from the pool shared by
+all widgets (`_ti_get_z_index`; the pool discipline itself is C18's, here a parameter `alloc`). -/
+
+/-- the parameters of every render call a caching iterator makes: `nFrames` in loop 1, then `nFrames` for each
+    later loop before which the image size changed (`true`), none otherwise -/
+def iterRenders (r : Result) (nFrames : Nat) (changed : List Bool) : List Result :=
+  List.replicate nFrames r ++ (changed.flatMap fun c => if c then List.replicate nFrames r else [])
+
+/-- `ImageIterator(image, repeat, spec, cached=True)` iterated through `1 + changed.length` loops -/
+def iterEntry (instanceMro : List KName) (cols lines : Nat) (s : List Char) (nFrames : Nat)
+    (changed : List Bool) : Except Err (List Result) :=
+  match entryCheck .iter instanceMro cols lines s with
+  | .error e => .error e                                   -- raised by the constructor, nothing rendered
+  | .ok r => .ok (iterRenders r nFrames changed)
+
+/-- `UrwidImage(image, spec)`: (pool afterwards, whether a z-index was taken, outcome) -/
+def urwidEntry {P : Type} (alloc : P → Int × P) (instanceMro : List KName) (cols lines : Nat)
+    (s : List Char) (pool : P) : P × Bool × Except Err Result :=
+  match entryCheck .urwid instanceMro cols lines s with
+  | .error e => (pool, false, .error e)                    -- raised before the pool is touched
+  | .ok r =>
+    if dispatch instanceMro = some .kitty then ((alloc pool).2, true, .ok r)   -- `isinstance(image, KittyImage)`
+    else (pool, false, .ok r)
+
 /-- explicit parameters of `draw()` -/
 structure DrawArgs where
   hAlign : Option (List Char)
